@@ -173,9 +173,20 @@ CHECKS = {
          "voice separation (VoSA) and key estimation (np.corrcoef, argmax) are dense numeric kernels outside the encoding.",
     technique="symbolic execution of real code (CrossHair/z3), partial",
     ref="DESIGN.md §2 C17"),
+ "C03": dict(
+    text="PARTIAL (second sentence of the property only): symbolic execution of the exporter's measure linearisation "
+         "(linearize_measure_contents / linearize_segment_contents / remove_voice_polyphony / make_note_el / add_chord_tags / "
+         "merge_with_voice / merge_measure_contents / forward_backup_if_needed) on one measure with symbolic onsets, durations, voice and "
+         "shape variants (chord, chord member of other length, grace note, rest, tie flag); the produced element sequence is read by an "
+         "independent MusicXML position interpreter (duration / backup / forward / chord / grace) and must denote exactly the measure's "
+         "notes (onset, duration, spelling, staff, tie flags), with no polyphony left inside a voice. Path trees exhausted per shape.",
+    note="Element-tree model instead of lxml: NO serialisation, NO load_musicxml, no re-export fixpoint, no part lists/groups, directions, "
+         "slurs, tuplets, mid-measure division changes; these clauses of C03 are not claimed. Numbers written with str.format are kept "
+         "as lazy values (opt-in CrossHair patch) so they are decided, not enumerated.",
+    technique="symbolic execution of real code (CrossHair/z3) + independent interpreter, partial",
+    ref="DESIGN.md §I.5 C03"),
 }
 NOT_APPLICABLE = {
- "C03": "MusicXML round trip: exporter/importer are bound to lxml element trees and byte serialisation; the pure-Python tree model planned in DESIGN.md was not built (see DESIGN.md §2 C03); no sound solver-based encoding in place",
  "C19": "MEI/kern loaders work on lxml documents and text lines; the only solver-reachable kernels (kern reciprocal/dot arithmetic, pitch letter counting, MEI duration tables) are table look-ups with nothing left for a solver but enumeration, and dot_function divides symbolic by symbolic (DESIGN.md §2 C19)",
  "C18": "float32/transcendental codec chain (log2, 2**x, mean/std, symbolic/symbolic division) over ~600 lines of vectorised numpy: non-linear with transcendental terms, z3 answers unknown; no sound bounded encoding within reach (DESIGN.md §2 C18)",
 }
